@@ -527,6 +527,91 @@ def unwind_rule(R, ro, rule):
         R.ok(rule + ".SCOPE", site, "the exception handler only truncates to the entry height (enclosing computations keep their tasks)")
 
 
+def unwind_pauses(R, ro, rule):
+    """Tasks that are dropped from the stack without being continued (an exception leaves the drain; the stack limit resets the
+    scheduler) have their contexts paused, innermost (top of the stack) first.  A task that waits for its dependencies has
+    its contexts resumed; dropped like that it would keep e.g. a scoped-value override in effect after the computation ended."""
+    d = ro.drain_method()
+    cfg = cfg_of(d)
+    sf = "self." + ro.stack_field()
+    hookm = "_pause_contexts"
+    # copies of the part of the stack that is dropped:  X = self.<stack>[lower:]
+    copies = {}
+    for n in cfg.nodes:
+        if n.kind == "stmt" and isinstance(n.ast, ast.Assign) and len(n.ast.targets) == 1 and isinstance(n.ast.targets[0], ast.Name):
+            v = n.ast.value
+            if isinstance(v, ast.Call) and q.call_name(v) == "list" and len(v.args) == 1:
+                v = v.args[0]
+            if isinstance(v, ast.Subscript) and q.src(v.value) == sf and isinstance(v.slice, ast.Slice) and v.slice.upper is None and v.slice.step is None:
+                copies[n.ast.targets[0].id] = (q.src(v.slice.lower) if v.slice.lower is not None else "0", n)
+    loops = []      # (for-node, lower bound of what it walks, reversed?)
+    for n in cfg.nodes:
+        if n.kind not in ("loop", "for") or not isinstance(n.ast, ast.For) or not isinstance(n.ast.target, ast.Name):
+            continue
+        it = n.ast.iter
+        rev = isinstance(it, ast.Call) and q.call_name(it) == "reversed" and len(it.args) == 1
+        base = it.args[0] if rev else it
+        if isinstance(base, ast.Subscript) and q.src(base.slice) == "::-1":
+            rev, base = True, base.value
+        lower = None
+        if isinstance(base, ast.Name) and base.id in copies:
+            lower = copies[base.id][0]
+        elif isinstance(base, ast.Subscript) and q.src(base.value) == sf and isinstance(base.slice, ast.Slice) and base.slice.upper is None:
+            lower = q.src(base.slice.lower) if base.slice.lower is not None else "0"
+        if lower is None:
+            continue
+        aliases = set([n.ast.target.id])
+        for x in ast.walk(n.ast):
+            if isinstance(x, ast.Assign) and isinstance(x.value, ast.Name) and x.value.id in aliases:
+                aliases |= set(t.id for t in x.targets if isinstance(t, ast.Name))
+        calls = [c for st in n.ast.body for c in q.calls(st) if q.attr_call(c)[1] == hookm and isinstance(q.attr_call(c)[0], ast.Name) and q.attr_call(c)[0].id in aliases]
+        if calls:
+            loops.append((n, lower, rev))
+            # ... but not a task that is executing right now (it made the synchronous call we are unwinding from): its code goes
+            # on running with its contexts; pausing them here would make its next resumption resume them a second time
+            for c in calls:
+                cn = [x for x in cfg.nodes if c in kit.node_calls(x)]
+
+                def not_running(nd, aliases=aliases):
+                    if nd.kind != "test":
+                        return None
+                    k_, s_, pos_ = q.atom_test(nd.ast)
+                    if k_ == "truth" and isinstance(s_, str) and s_.endswith(".running") and s_.split(".")[0] in aliases:
+                        return "F" if pos_ else "T"
+                    return None
+                pr = kit.path_avoiding_guard(cfg, cn, not_running, N)
+                R.check(pr is None, rule, d.qualname + ":not-running:" + str(lower), R.site(d, c),
+                        "a task that is executing at that moment keeps its contexts",
+                        "the contexts of a task that is still executing (the caller of the nested synchronous call) are paused while its code runs on: "
+                        "contexts it enters afterwards are resumed twice at its next step", cfg.fmt_path(pr) if pr else None)
+    no_exc = lambda e: not (e.implicit and cfg.nodes[e.dst].kind == "except")
+    # 1. the exception handler that truncates the stack
+    hname = None
+    for n in cfg.nodes:
+        if n.kind == "stmt" and isinstance(n.ast, ast.Assign) and q.src(n.ast.value) == "len(%s)" % sf and isinstance(n.ast.targets[0], ast.Name):
+            hname = n.ast.targets[0].id
+    handlers = [n for n in cfg.nodes if n.kind == "except" and any(isinstance(x, ast.Raise) and x.exc is None for x in ast.walk(n.ast))]
+    for h in handlers:
+        good = [n for n, lower, rev in loops if lower == hname and rev]
+        p = cfg.find_path([h], [cfg.raise_exit], N, cut_nodes=good, keep_edge=no_exc)
+        R.check(p is None and good, rule, d.qualname + ":handler", R.site(d, h.ast),
+                "before the exception leaves the drain, the tasks it drops have their contexts paused, top of the stack first",
+                "an exception leaves the drain with the contexts of the dropped tasks still resumed (or paused in the wrong order): an AsyncScopedValue override "
+                "made by a task that was waiting for its dependencies stays in effect after the computation ended with the error",
+                cfg.fmt_path(p) if p else None)
+    R.need(handlers, "idiom: the drain has no re-raising exception handler")
+    # 2. the stack-limit reset
+    resets = [n for n, c in kit.call_sites(d, lambda c: q.call_name(c) == "self.reset")]
+    for r_ in resets:
+        good = [n for n, lower, rev in loops if lower == "0" and rev]
+        # the pause happens before the reset throws the stack away
+        dom = cfg.find_path([cfg.entry], [r_], N, cut_nodes=good, keep_edge=no_exc)
+        R.check(dom is None and good, rule, d.qualname + ":reset", R.site(d, r_.ast),
+                "before the stack limit resets the scheduler, every task on the stack has its contexts paused, top first",
+                "the stack limit resets the scheduler with the contexts of the tasks on the stack still resumed: their overrides outlive the RuntimeError",
+                cfg.fmt_path(dom) if dom else None)
+
+
 def active_task_pair(R, ro, rule):
     ct = ro.continue_task_method()
     st = ro.step_method_task()
@@ -618,9 +703,98 @@ def wait_for_exits(R, ro, rule):
     R.check(p is None, rule, wf.qualname + ":returns-computed", R.site(wf),
             "wait_for returns only over the computed edge of %s.is_computed()" % tparam,
             "wait_for can return while the awaited task is not computed", cfg.fmt_path(p) if p else None)
-    raises = [n for n in cfg.nodes if n.kind == "stmt" and isinstance(n.ast, ast.Raise)]
+    # (a bare `raise` in a handler passes on what something else raised; it is not wait_for giving up)
+    raises = [n for n in cfg.nodes if n.kind == "stmt" and isinstance(n.ast, ast.Raise)
+              and not (n.ast.exc is None and q.enclosing(n.ast, ast.ExceptHandler) is not None)]
     R.check(not raises, rule, wf.qualname + ":no-raise", R.site(wf),
             "wait_for never gives up on its own: as long as the task is uncomputed it drains and flushes again",
             "wait_for raises %s on its own: after a nested synchronous call has flushed the batch a suspended sibling waits for, the outer loop sees "
             "'still blocked, nothing to flush' although one more drain would make progress - a finite acyclic computation fails"
             % ", ".join(q.src(n.ast)[:60] for n in raises))
+
+
+def exception_slot_types(R, rule, classes):
+    """Extension-type declarations of the slots an exception object travels through (parameters / fields / typed locals named
+    error, exc, e, ...) accept every exception: untyped, `object` or `BaseException`.  A narrower C type (`Exception`) turns a
+    BaseException-derived failure - KeyboardInterrupt, GeneratorExit, asyncio.CancelledError, a user's abort signal - into a
+    TypeError at the call boundary of the compiled build, before the code that would have delivered it runs."""
+    OK = (None, "", "object", "BaseException")
+    NAMES = ("error", "err", "exc", "e", "exception", "_error")
+    n = 0
+    for cq in classes:
+        cls = R.repo.cls(cq)
+        px = cls.pxd
+        if px is None:
+            continue
+        for mname, pf in sorted(px.methods.items()):
+            for t, pname, _ in pf.params:
+                if pname in NAMES:
+                    n += 1
+                    R.check(t in OK, rule, "%s.%s(%s)" % (cls.qualname, mname, pname), "%s:%d" % (cls.module.pxd_path.replace(R.repo.root + "/", ""), pf.line),
+                            "%s.%s accepts any exception object in `%s`" % (cls.name, mname, pname),
+                            "%s.%s declares `%s %s`: an exception not derived from %s (KeyboardInterrupt, GeneratorExit, CancelledError, a BaseException subclass) "
+                            "is refused with TypeError at the call in the compiled build instead of being delivered" % (cls.name, mname, t, pname, t))
+            for lname, t in sorted(pf.locals.items()):
+                if lname in NAMES:
+                    n += 1
+                    R.check(t in OK, rule, "%s.%s:%s" % (cls.qualname, mname, lname), "%s:%d" % (cls.module.pxd_path.replace(R.repo.root + "/", ""), pf.line),
+                            "the local `%s` of %s.%s accepts any exception object" % (lname, cls.name, mname),
+                            "%s.%s declares the local `%s` as %s: assigning another kind of exception raises TypeError in the compiled build" % (cls.name, mname, lname, t))
+        for fname, (t, vis, line) in sorted(px.fields.items()):
+            if fname in NAMES:
+                n += 1
+                R.check(t in OK, rule, "%s.%s" % (cls.qualname, fname), "%s:%d" % (cls.module.pxd_path.replace(R.repo.root + "/", ""), line),
+                        "the field %s.%s accepts any exception object" % (cls.name, fname),
+                        "%s.%s is declared %s: storing another kind of exception raises TypeError in the compiled build" % (cls.name, fname, t))
+    return n
+
+
+def future_truthiness(R, rule, only_under=None):
+    """FutureBase.__nonzero__ raises TypeError ("treating a future as a bool is probably a bug"), and in the compiled build that
+    is the object's truth slot: `if task:` / `x and task` on an expression the .pxd types as a future raises instead of testing.
+    Every truth test of a future-typed expression must be written `is None` / `is not None`."""
+    fb = R.repo.cls("futures.FutureBase")
+    n = 0
+
+    def atoms(e):
+        if isinstance(e, ast.BoolOp):
+            for v in e.values:
+                for a in atoms(v):
+                    yield a
+        elif isinstance(e, ast.UnaryOp) and isinstance(e.op, ast.Not):
+            for a in atoms(e.operand):
+                yield a
+        elif isinstance(e, (ast.Name, ast.Attribute)):
+            yield e
+
+    def all_funcs(fi):
+        yield fi
+        for nf in fi.nested.values():
+            for x in all_funcs(nf):
+                yield x
+    seen = set()
+    for f0 in R.repo.all_functions():
+        for f in all_funcs(f0):
+            if id(f.node) in seen:
+                continue
+            seen.add(id(f.node))
+            for node in q.scope_nodes(f.node):
+                tests = []
+                if isinstance(node, (ast.If, ast.While, ast.IfExp, ast.Assert)):
+                    tests.append(node.test)
+                elif isinstance(node, ast.BoolOp) and not isinstance(getattr(node, "_parent", None), (ast.If, ast.While, ast.IfExp, ast.Assert, ast.BoolOp)):
+                    # `a and b` as a value: every operand but the last is truth-tested
+                    for v in node.values[:-1]:
+                        tests.append(v)
+                for t in tests:
+                    for a in atoms(t):
+                        cls = R.res.expr_class(f, a)
+                        if not cls:
+                            continue
+                        n += 1
+                        bad = [c for c in cls if c.is_subclass_of(fb)]
+                        R.check(not bad, rule, "%s:%s" % (f.qualname, q.src(a)), R.site(f, a),
+                                "`%s` (%s) is not a future" % (q.src(a), ", ".join(sorted(c.name for c in cls))),
+                                "`%s` is a %s and is tested for truth in `%s`: FutureBase refuses conversion to bool (TypeError in the compiled build); "
+                                "write `is not None`" % (q.src(a), bad[0].name if bad else "?", q.src(t)[:60]))
+    return n
